@@ -153,9 +153,9 @@ ScAssign(cls, tv) ==     \* [ok, exc, e: optional header text, rb]
     [] cls = "int"  -> [ok |-> tv.tg = "int", exc |-> "", e |-> Some(Dec(tv.n)), rb |-> U("int", tv.n, 0, <<>>, <<>>)]
     [] cls = "age"  -> IF tv.n < 0 THEN [ok |-> tv.tg = "int", exc |-> "ValueError", e |-> None, rb |-> UAny]
                        ELSE [ok |-> tv.tg \in {"int", "td"}, exc |-> "", e |-> Some(Dec(tv.n)), rb |-> U("td", tv.n, 0, <<>>, <<>>)]
-    [] cls = "date" -> [ok |-> tv.tg = "dt" /\ DateOK(tv.n, tv.m), exc |-> "", e |-> Some(ImfDate(tv.n, tv.m)), rb |-> U("dt", tv.n, tv.m, <<>>, <<>>)]
+    [] cls = "date" -> [ok |-> tv.tg = "dt" /\ DateOK(tv.n, tv.m), exc |-> "", e |-> Some(ImfDate(tv.n, tv.m)), rb |-> IF DateReadsBack(tv.n) THEN U("dt", tv.n, tv.m, <<>>, <<>>) ELSE UAny]
     [] cls = "retry" -> IF tv.tg = "dt"
-                        THEN [ok |-> DateOK(tv.n, tv.m), exc |-> "", e |-> Some(ImfDate(tv.n, tv.m)), rb |-> U("dt", tv.n, tv.m, <<>>, <<>>)]
+                        THEN [ok |-> DateOK(tv.n, tv.m), exc |-> "", e |-> Some(ImfDate(tv.n, tv.m)), rb |-> IF DateReadsBack(tv.n) THEN U("dt", tv.n, tv.m, <<>>, <<>>) ELSE UAny]
                         ELSE [ok |-> tv.tg = "int", exc |-> "", e |-> Some(Dec(tv.n)), rb |-> UAny]
     [] cls = "etag" -> [ok |-> tv.tg = "str" /\ Printable(tv.s) /\ ~Has(tv.s, 34), exc |-> "",
                         e |-> Some((IF tv.n = 1 THEN <<87, 47>> ELSE <<>>) \o <<34>> \o tv.s \o <<34>>), rb |-> U("str", tv.n, 0, tv.s, <<>>)]
